@@ -195,6 +195,9 @@ pub struct Log {
     pub lend: Vec<LendEv>,
     #[serde(default)]
     pub tasks: Vec<TaskRec>,
+    /// zero-sized lent values constructed / dropped during this run
+    #[serde(default)]
+    pub zst: (u32, u32),
 }
 
 /// one future of the executor world
@@ -316,6 +319,7 @@ fn port_snap(port: Port) -> Option<Snap> {
 
 /// A recorded call into the mock. Panics propagate (after being recorded).
 pub fn do_call(m: M, x: u8, y: u8, port: Port) -> u64 {
+    let (x, y) = if m == M::Z0 { (0, 0) } else { (x, y) };
     let (run, id) = with_tl(|t| {
         let run = t.run.clone();
         let step = run.tick();
